@@ -23,7 +23,7 @@ Dim = Int(0, B - 1)  # every size a child reports is a sane screen dimension (as
 
 
 def canvas_shape(cls=_canvas.Canvas):
-    return Obj(cls, dict(ncols=Nat, nrows=Nat, cursor=Opt(Tup(Int, Int)), src=Int, top_off=Int, left_off=Int, padded=Bool, finalized=Bool))
+    return Obj(cls, dict(ncols=Nat, nrows=Nat, cursor=Opt(Tup(Int, Int)), src=Int, top_off=Int, left_off=Int, noshards=Bool))
 
 
 CANVAS = canvas_shape()
@@ -57,7 +57,7 @@ class WidgetProtocol(Protocol):
     def _ens_render(st, w, a, canv):
         size = _size_parts(a["size"])
         P = PROTOCOLS["Widget"]
-        out = [canv.fields["top_off"] == 0, canv.fields["left_off"] == 0, neg(canv.fields["padded"]), neg(canv.fields["finalized"]) if False else True]
+        out = [canv.fields["top_off"] == 0, canv.fields["left_off"] == 0, neg(canv.fields["noshards"])]
         if len(size) == 2:
             out += [canv.fields["ncols"] == size[0], canv.fields["nrows"] == size[1]]
         elif len(size) == 1:
@@ -97,22 +97,7 @@ class WidgetProtocol(Protocol):
         "sizing": PMethod(Opaque("SizingSet"), params=[]),
         "_invalidate": PMethod(None, params=[], mutates=True),
     }
-    has = {"get_cursor_coords": "uf", "get_pref_col": "uf", "move_cursor_to_coords": "uf", "mouse_event": "uf", "keypress": "uf", "rows": True, "pack": True, "render": True, "selectable": True}
-
-    def call_quiet(self, st, recv, name, vals):
-        """The value a call would return, without logging it in the ghost trace or bumping versions."""
-        from pyvc.protocol import encode_arg
-
-        m = self.methods[name]
-        terms = []
-        for p in m.params:
-            terms.extend(encode_arg(st, vals[p]))
-        r = self.uf_value(st, name, recv, terms, m.result, self.version(st, recv))
-        if m.ensures is not None and name != "render":
-            for f in m.ensures(st, recv, vals, r) or ():
-                st.assume(f)
-        st.ghost.setdefault("uf_calls", []).append((str(recv.e), name, dict(vals), r))
-        return r
+    has = {"automove_cursor_on_scroll": False, "get_cursor_coords": "uf", "get_pref_col": "uf", "move_cursor_to_coords": "uf", "mouse_event": "uf", "keypress": "uf", "rows": True, "pack": True, "render": True, "selectable": True}
 
 
 PROTOCOLS["Widget"] = WidgetProtocol()
@@ -130,6 +115,21 @@ class SizingSetProtocol(Protocol):
 
 
 PROTOCOLS["SizingSet"] = SizingSetProtocol()
+
+
+def sizing_has(w, x):
+    """Does the opaque widget w report sizing mode x (a urwid.Sizing member)?"""
+    st = cur()
+    ss = PROTOCOLS["Widget"].call_quiet(st, w, "sizing", {})
+    return PROTOCOLS["SizingSet"].contains(st, ss, x)
+
+
+def canvas_wf(c):
+    """Well-formedness of a canvas value: cursor, if any, lies inside."""
+    cu = c.cursor
+    if cu is None:
+        return both(c.ncols >= 0, c.nrows >= 0)
+    return both(c.ncols >= 0, c.nrows >= 0, either(mk_bool(cu.isnone), both(0 <= cu.val[0], cu.val[0] < c.ncols, 0 <= cu.val[1], cu.val[1] < c.nrows)))
 
 
 # --------------------------------------------------------------------------------------------- canvas model (assumed)
@@ -157,9 +157,9 @@ class cc_init:
     def ensures(old, s, a, result):
         c = a.canv
         if c is None:
-            yield "empty", both(s.ncols == 0, s.nrows == 0, mk_bool(s.cursor.isnone), neg(s.padded), neg(s.finalized))
+            yield "empty", both(s.ncols == 0, s.nrows == 0, mk_bool(s.cursor.isnone), s.noshards)
         else:
-            yield "copy", both(s.ncols == c.ncols, s.nrows == c.nrows, _cursor_shift(c.cursor, s.cursor, 0, 0), s.src == c.src, s.top_off == c.top_off, s.left_off == c.left_off, eq(s.padded, c.padded), neg(s.finalized))
+            yield "copy", both(s.ncols == c.ncols, s.nrows == c.nrows, _cursor_shift(c.cursor, s.cursor, 0, 0), s.src == c.src, s.top_off == c.top_off, s.left_off == c.left_off, eq(s.noshards, c.noshards))
 
 
 for _cls in ("Canvas", "CompositeCanvas"):
@@ -180,12 +180,12 @@ for _cls in ("Canvas", "CompositeCanvas"):
 @contract("urwid/canvas.py:CompositeCanvas.trim", property=(), assumed=True, notes="canvas protocol: keeps rows [top, top+count) (owned by C02)")
 class cc_trim:
     self_shape = CCANVAS
-    modifies = ("nrows", "cursor", "top_off", "src")
+    modifies = ("nrows", "cursor", "top_off")
     raises = ()
 
     def requires(s, a):
         # ValueError otherwise — callers must establish it (this is a call-pre obligation at every call site)
-        return both(a.top >= 0, a.top < s.nrows, neg(s.finalized))
+        return both(a.top >= 0, a.top < s.nrows)
 
     def ensures(old, s, a, result):
         cnt = a.count if "count" in a else None
@@ -195,7 +195,7 @@ class cc_trim:
             yield "rows", s.nrows == imin(cnt, old.nrows - a.top)
             yield "cnt", cnt >= 0
         yield "cursor", _cursor_shift(old.cursor, s.cursor, 0, -a.top)
-        yield "window", both(s.top_off == old.top_off + a.top, implies(neg(old.padded), s.src == old.src))
+        yield "window", s.top_off == old.top_off + a.top
 
 
 @contract("urwid/canvas.py:CompositeCanvas.trim_end", property=(), assumed=True, notes="canvas protocol (owned by C02)")
@@ -204,7 +204,7 @@ class cc_trim_end:
     modifies = ("nrows",)
 
     def requires(s, a):
-        return both(a.end > 0, a.end <= s.nrows, neg(s.finalized))
+        return both(a.end > 0, a.end <= s.nrows)
 
     def ensures(old, s, a, result):
         yield "rows", s.nrows == old.nrows - a.end
@@ -213,29 +213,29 @@ class cc_trim_end:
 @contract("urwid/canvas.py:CompositeCanvas.pad_trim_left_right", property=(), assumed=True, notes="canvas protocol: cols += left+right, cursor x += left (owned by C02)")
 class cc_ptlr:
     self_shape = CCANVAS
-    modifies = ("ncols", "cursor", "left_off", "padded")
+    modifies = ("ncols", "cursor", "left_off")
 
     def requires(s, a):
-        return both(neg(s.finalized), s.ncols + imin(a.left, 0) + imin(a.right, 0) >= 0, either(both(a.left <= 0, a.right <= 0), s.nrows > 0))
+        return both(s.ncols + imin(a.left, 0) + imin(a.right, 0) >= 0, either(both(a.left <= 0, a.right <= 0), neg(s.noshards)))
 
     def ensures(old, s, a, result):
         yield "cols", s.ncols == old.ncols + a.left + a.right
         yield "cursor", _cursor_shift(old.cursor, s.cursor, a.left, 0)
-        yield "window", both(s.left_off == old.left_off - imin(a.left, 0), eq(s.padded, either(old.padded, a.left > 0, a.right > 0)))
+        yield "window", s.left_off == old.left_off - a.left
 
 
 @contract("urwid/canvas.py:CompositeCanvas.pad_trim_top_bottom", property=(), assumed=True, notes="canvas protocol: rows += top+bottom, cursor y += top (owned by C02)")
 class cc_pttb:
     self_shape = CCANVAS
-    modifies = ("nrows", "cursor", "top_off", "padded")
+    modifies = ("nrows", "cursor", "top_off")
 
     def requires(s, a):
-        return both(neg(s.finalized), implies(either(a.top < 0, a.bottom < 0), both(imax(0, -a.top) < s.nrows, s.nrows + imin(a.top, 0) + imin(a.bottom, 0) >= 0)))
+        return both(implies(either(a.top < 0, a.bottom < 0), both(imax(0, -a.top) < s.nrows, s.nrows + imin(a.top, 0) + imin(a.bottom, 0) >= 0)))
 
     def ensures(old, s, a, result):
         yield "rows", s.nrows == old.nrows + a.top + a.bottom
         yield "cursor", _cursor_shift(old.cursor, s.cursor, 0, a.top)
-        yield "window", both(s.top_off == old.top_off - imin(a.top, 0), eq(s.padded, either(old.padded, a.top > 0, a.bottom > 0)))
+        yield "window", s.top_off == old.top_off - a.top
 
 
 @contract("urwid/canvas.py:CompositeCanvas.fill_attr", property=(), assumed=True, notes="canvas protocol: attributes only")
@@ -243,17 +243,11 @@ class cc_fill_attr:
     self_shape = CCANVAS
     modifies = ()
 
-    def requires(s, a):
-        return neg(s.finalized)
-
 
 @contract("urwid/canvas.py:CompositeCanvas.fill_attr_apply", property=(), assumed=True, notes="canvas protocol: attributes only")
 class cc_fill_attr_apply:
     self_shape = CCANVAS
     modifies = ()
-
-    def requires(s, a):
-        return neg(s.finalized)
 
 
 @contract("urwid/canvas.py:CanvasOverlay", property=(), assumed=True, notes="canvas protocol: result has the bottom canvas's size; top canvas must fit (owned by C02)")
@@ -279,4 +273,107 @@ class solid_init:
     ctor_params = ("fill_char", "cols", "rows")
 
     def ensures(old, s, a, result):
-        yield "size", both(s.ncols == a.cols, s.nrows == a.rows, mk_bool(s.cursor.isnone), neg(s.padded))
+        yield "size", both(s.ncols == a.cols, s.nrows == a.rows, mk_bool(s.cursor.isnone), neg(s.noshards))
+
+
+# ---- CanvasCombine / CanvasJoin (assumed; owned by C02's canvas-protocol check)
+
+def _seq_items(seq):
+    """[(count, item)] runs of a canvas_info argument: concrete tuple/list, or parts of constant runs."""
+    from pyvc.seqs import LRef, SSeq
+    from pyvc import seqs as Q
+
+    if isinstance(seq, LRef):
+        seq = seq.seq
+    if isinstance(seq, (tuple, list)):
+        return [(1, it) for it in seq]
+    parts = getattr(seq, "parts", None) or [seq]
+    out = []
+    for p in parts:
+        if isinstance(p, (tuple, list)):
+            out.extend((1, it) for it in p)
+        elif hasattr(p, "const_elt"):
+            out.append((Q.seq_len(p), p.const_elt))
+        else:
+            raise Unsupported("CanvasCombine/CanvasJoin over a sequence that is not made of constant runs")
+    return out
+
+
+class _CanvasCombineContract(Contract):
+    target = "urwid/canvas.py:CanvasCombine"
+    property = ()
+    assumed = True
+    notes = "canvas protocol: rows add up, width of the parts, cursor of the last part that has one shifted by the rows above (owned by C02)"
+
+    def apply(self, ip, st, f, args, kwargs, site=None):
+        runs = _seq_items(args[0] if args else kwargs["canvas_info"])
+        r = CCANVAS.fresh(st, "combined")
+        rows = 0
+        cursor_none = True
+        for cnt, item in runs:
+            canv = item[0]
+            rows = rows + cnt * canv.nrows
+            cu = canv.cursor
+            if isinstance(cnt, int) and cnt == 1:
+                if cu is not None and not is_none(cu):
+                    st.assume(both(neg(mk_bool(r.cursor.isnone)), r.cursor.val[0] == val(cu)[0], r.cursor.val[1] == val(cu)[1] + (rows - canv.nrows)))
+                    cursor_none = False
+            else:
+                if cu is not None and not is_none(cu):
+                    raise Unsupported("repeated canvas with a cursor in CanvasCombine")
+        st.assume(r.nrows == rows)
+        if runs:
+            first = runs[0][1][0]
+            widths = [both(implies(cnt > 0, item[0].ncols == r.ncols)) for cnt, item in runs]
+            # all parts share one width in every use in urwid; the result reports the first shard's width
+            st.oblige(f"{ip.task.name}/call-pre@CanvasCombine:{(site or '').split(':')[-1]}/equal-widths",
+                      both(*[implies(both(c1 > 0, c2 > 0), i1[0].ncols == i2[0].ncols) for (c1, i1), (c2, i2) in zip(runs, runs[1:])]), "call-pre")
+            nonempty = either(*[cnt > 0 for cnt, _ in runs])
+            st.assume(implies(nonempty, either(*[both(cnt > 0, r.ncols == item[0].ncols) for cnt, item in runs])))
+            st.assume(implies(neg(nonempty), r.ncols == 0))
+            st.assume(eq(r.noshards, neg(nonempty)))
+        else:
+            st.assume(both(r.ncols == 0, r.noshards))
+        if cursor_none:
+            st.assume(mk_bool(r.cursor.isnone))
+        st.event("combine", runs, r)
+        ip.task.used_contracts.add(self.target)
+        return r
+
+
+REGISTRY[_CanvasCombineContract.target] = _CanvasCombineContract()
+
+
+class _CanvasJoinContract(Contract):
+    target = "urwid/canvas.py:CanvasJoin"
+    property = ()
+    assumed = True
+    notes = "canvas protocol: widths as given add up, height is the tallest part, cursor shifted by the columns to the left (owned by C02)"
+
+    def apply(self, ip, st, f, args, kwargs, site=None):
+        runs = _seq_items(args[0] if args else kwargs["canvas_info"])
+        r = CCANVAS.fresh(st, "joined")
+        cols = 0
+        rows = 0
+        cursor_none = True
+        for cnt, item in runs:
+            if not (isinstance(cnt, int) and cnt == 1):
+                raise Unsupported("CanvasJoin over repeated runs")
+            canv, _pos, _focus, c = item
+            st.oblige(f"{ip.task.name}/call-pre@CanvasJoin:{(site or '').split(':')[-1]}/part-fits", both(c >= 0, implies(c > canv.ncols, neg(canv.noshards))), "call-pre")
+            cu = canv.cursor
+            if cu is not None and not is_none(cu):
+                if val(cu)[0] < c:
+                    st.assume(both(neg(mk_bool(r.cursor.isnone)), r.cursor.val[0] == val(cu)[0] + cols, r.cursor.val[1] == val(cu)[1]))
+                    cursor_none = False
+            cols = cols + c
+            rows = imax(rows, canv.nrows)
+        st.assume(both(r.ncols == cols, r.nrows == rows, neg(r.noshards) if runs else r.noshards))
+        if cursor_none:
+            st.assume(mk_bool(r.cursor.isnone))
+        st.event("join", runs, r)
+        ip.task.used_contracts.add(self.target)
+        return r
+
+
+REGISTRY[_CanvasJoinContract.target] = _CanvasJoinContract()
